@@ -407,7 +407,7 @@ def enc_rules(rules) -> str:
 class Capsule(Family):
     name = "capsule"
     quick_n = 2000
-    thorough_n = 16000
+    thorough_n = 40000
     REQS = 110
 
     def gen(self, rng: random.Random, n: int):
